@@ -37,6 +37,10 @@ Fixpoint increasing (l : list float) : bool :=
   | _ => true
   end.
 Definition pt_eqb (p q : fpt) : bool := (fst p =? fst q)%float && (snd p =? snd q)%float.
+Fixpoint distinct_nats (l : list nat) : bool :=
+  match l with [] => true | a :: l' => negb (existsb (Nat.eqb a) l') && distinct_nats l' end.
+Fixpoint distinct_floats (l : list float) : bool :=
+  match l with [] => true | a :: l' => negb (existsb (PrimFloat.eqb a) l') && distinct_floats l' end.
 Definition first_false (l : list bool) : Z :=
   (fix go (l : list bool) (k : Z) : Z :=
      match l with [] => 0%Z | b :: l' => if b then go l' (k + 1)%Z else k end) l 1%Z.
@@ -93,7 +97,17 @@ Definition judge (c : case) : Z :=
         if entries_ok && negb (2 * tp + fp + fn =? 0)%Z then in01 f1 else true;                   (* 8 *)
         if entries_ok && (0 <? mcc_den2 tp fp fn tn)%Z then in11 mc else true;                    (* 9 *)
         if (fp =? 0)%Z && (fn =? 0)%Z && (0 <? tp)%Z && (0 <=? tn)%Z then is_val acc 1 && is_val f1 1 else true;   (* 10 perfect *)
-        if (fp =? 0)%Z && (fn =? 0)%Z && (0 <? tp)%Z && (0 <? tn)%Z then is_val mc 1 else true      (* 11 perfect, mcc *)
+        if (fp =? 0)%Z && (fn =? 0)%Z && (0 <? tp)%Z && (0 <? tn)%Z then is_val mc 1 else true;     (* 11 perfect, mcc *)
+        (* 12 each score = the mean per-coordinate nearest-neighbour error from the side the strategy selects
+           (the declarative forms of the theorems, neighbours from the oracle table) *)
+        opt_same mae_o (Some (@mean_err_spec FloatNum dist (@l1_term FloatNum) a b))
+        && opt_same mse_o (Some (@mean_err_spec FloatNum dist (@l2_term FloatNum) a b))
+        && opt_same rmspe_o (Some (@rmspe_spec FloatNum dist a b));
+        (* 13 E exactly the knee points (distinct knees, same points in any order without repetition), t >= 0:
+           the matrix is [[|K|, 0], [0, n - |K|]] *)
+        if distinct_nats knees && (length expected =? length knees) && distinct_floats (map fst expected)
+           && forallb (fun e => existsb (pt_eqb e) kp) expected && (0 <=? t)%float
+        then (tp =? nK)%Z && (fp =? 0)%Z && (fn =? 0)%Z && (tn =? Z.of_nat n - nK)%Z else true
       ] in
       ((if ag then 0 else 100) + h)%Z
   end.
